@@ -76,7 +76,28 @@ class World:
         time.monotonic_ns = lambda: int(self.clock.time() * 1e9)
         subprocess.run = self.peer.subprocess_run
         subprocess.Popen = self.peer.subprocess_popen
+        # the other doors to a child process end at the same peer
+        subprocess.check_output = lambda args, **kw: self.peer.subprocess_run(
+            args, **kw).stdout
+        subprocess.call = lambda args, **kw: (self.peer.subprocess_run(
+            args, **kw), 0)[1]
+        subprocess.check_call = subprocess.call
         urllib.request.urlopen = self.peer.urlopen
+        # ... and so do the other doors to HTTP; anything that would reach the
+        # real network is refused at once instead of hanging
+        urllib.request.OpenerDirector.open = (
+            lambda od, fullurl, data=None, timeout=None:
+            self.peer.urlopen(fullurl if not isinstance(fullurl, str)
+                              else urllib.request.Request(fullurl, data)))
+        import socket as socket_mod
+
+        def refuse(*a, **kw):
+            self.ev('real_network_refused')
+            raise ConnectionRefusedError(errno.ECONNREFUSED,
+                                         'no real network in the simulation')
+        socket_mod.create_connection = refuse
+        socket_mod.socket.connect = lambda sock, addr: refuse()
+        socket_mod.getaddrinfo = lambda *a, **kw: refuse()
         if self.plan.get('requests') is not None:
             import socket
             import socketserver
@@ -525,8 +546,19 @@ class SimPeer:
         return r
 
     # ---- S3: subprocess.Popen (local LT server start)
+    def _is_server_cmd(self, args):
+        return any(a == '--http' or 'HTTPServer' in str(a) or
+                   'languagetool-server' in str(a) for a in args)
+
     def subprocess_popen(self, args, **kw):
         w = self.world
+        if isinstance(args, str):
+            args = args.split()
+        args = list(args)
+        if not self._is_server_cmd(args):
+            # the proofreader run as a command through Popen (communicate(),
+            # check_output(), call() ...): same peer, other door
+            return _CommandProcess(self, args, kw)
         self.popen_calls += 1
         w.ev('popen', argv=list(args), cwd=kw.get('cwd'),
              t=self.world.clock.now)
@@ -689,6 +721,76 @@ def _textgears(self, url, fields):
 
 
 SimPeer.textgears = _textgears
+
+
+class _CommandProcess:
+    """A proofreader command started through subprocess.Popen: text on
+    stdin (communicate(input=...) or stdin.write()), answer on stdout."""
+
+    def __init__(self, peer, args, kw):
+        self.peer = peer
+        self.args = args
+        self.kw = kw
+        self.pid = 4243
+        self.returncode = None
+        self._in = io.BytesIO()
+        self._out = None
+        self.stdin = self._in if kw.get('stdin') is not None else None
+        self.stderr = io.BytesIO(b'') if kw.get('stderr') is not None else None
+        self._text_mode = bool(kw.get('text') or kw.get('universal_newlines')
+                               or kw.get('encoding'))
+        if peer.cfg.get('exec_fail'):
+            peer.world.fire('exec_fail')
+            peer.world.ev('run', argv=args, cwd=kw.get('cwd'), res='ENOENT')
+            raise FileNotFoundError(errno.ENOENT, 'No such file or directory',
+                                    args[0])
+
+    def _finish(self, data=None):
+        if self._out is None:
+            if data is None:
+                data = self._in.getvalue() if not self._in.closed else b''
+            if isinstance(data, str):
+                data = data.encode(self.kw.get('encoding') or 'utf-8')
+            r = self.peer.subprocess_run(self.args, input=data or b'',
+                                         cwd=self.kw.get('cwd'))
+            self._out = r.stdout
+            self.returncode = 0
+        return self._out
+
+    @property
+    def stdout(self):
+        if self.kw.get('stdout') is None:
+            return None
+        return io.BytesIO(self._finish())
+
+    def communicate(self, input=None, timeout=None):
+        out = self._finish(input)
+        if self.kw.get('stdout') is None:
+            out = None
+        elif self._text_mode:
+            out = out.decode(self.kw.get('encoding') or 'utf-8')
+        err = None if self.kw.get('stderr') is None else \
+            ('' if self._text_mode else b'')
+        return (out, err)
+
+    def poll(self):
+        return self.returncode
+
+    def wait(self, timeout=None):
+        self._finish()
+        return self.returncode
+
+    def terminate(self):
+        pass
+
+    def kill(self):
+        pass
+
+    def __enter__(self):
+        return self
+
+    def __exit__(self, *a):
+        return False
 
 
 # ---------------------------------------------------------------------
